@@ -13,12 +13,16 @@ import (
 	"encoding/json"
 	"fmt"
 	"os"
+	"path/filepath"
+	"regexp"
 	"strings"
 	"time"
 
+	nodecommon "github.com/alephium/wormhole-fork/node/pkg/common"
 	"github.com/alephium/wormhole-fork/node/verifh/ethh"
 	"github.com/alephium/wormhole-fork/node/verifh/ev"
 	"github.com/alephium/wormhole-fork/node/verifh/vtime"
+	"github.com/alephium/wormhole-fork/node/verifh/wiring"
 	"github.com/ethereum/go-ethereum/common"
 )
 
@@ -472,6 +476,82 @@ func bases() []scenario {
 	return out
 }
 
+// productionConfig: "the configured core contract" of each EVM watcher. The explorations above hand the watcher a
+// contract address; in the node it comes from configs/<chain>/<network>.json through common.ReadConfigsByNetwork
+// and cmd/guardiand/node.go. For every network the REAL config loader is run on the repository's config files and
+// each chain's core contract must be the one in that chain's own file; node.go's plumbing from the loaded
+// config to the constructor (read with go/ast) must hand the Ethereum watcher the Ethereum contract and the BSC
+// watcher the BSC contract.
+func productionConfig() {
+	exe, _ := os.Executable()
+	link := filepath.Join(filepath.Dir(exe), "configs")
+	os.Remove(link)
+	if err := os.Symlink(filepath.Join(r.Repo, "configs"), link); err != nil {
+		ev.Broken("configs symlink: %v", err)
+	}
+	defer os.Remove(link)
+	own := func(chain, network string) (gov, tb string) {
+		b, err := os.ReadFile(filepath.Join(r.Repo, "configs", chain, network+".json"))
+		if err != nil {
+			ev.Broken("%v", err)
+		}
+		var f struct {
+			Contracts struct{ Governance, TokenBridge string }
+		}
+		if json.Unmarshal(b, &f) != nil || f.Contracts.Governance == "" {
+			ev.Broken("configs/%s/%s.json: no contracts.governance", chain, network)
+		}
+		return f.Contracts.Governance, f.Contracts.TokenBridge
+	}
+	for _, network := range []string{"mainnet", "testnet", "devnet"} {
+		cfg, err := nodecommon.ReadConfigsByNetwork(network)
+		if err != nil {
+			r.Violation("production config: the config loader fails on the repository's own config files", fmt.Sprintf("%s: %v", network, err), network)
+			continue
+		}
+		for chain, got := range map[string]*nodecommon.ChainConfig{"ethereum": cfg.Ethereum, "bsc": cfg.Bsc, "alephium": cfg.Alephium} {
+			g, t := own(chain, network)
+			r.Add("config_facts", 1)
+			if got == nil || got.Contracts.Governance != g || got.Contracts.TokenBridge != t {
+				have := "nil"
+				if got != nil {
+					have = got.Contracts.Governance
+				}
+				r.Violation("production config: a chain's watcher is configured with another chain's (or network's) core contract", fmt.Sprintf("%s/%s: loader gives %s, configs/%s/%s.json has %s", chain, network, have, chain, network, g), map[string]string{"chain": chain, "network": network})
+			}
+		}
+	}
+	// node.go: loaded config -> constructor argument
+	nodeGo := filepath.Join(r.Repo, "node/cmd/guardiand/node.go")
+	src, _ := os.ReadFile(nodeGo)
+	text := string(src)
+	contracts, err := wiring.ArgFor(nodeGo, "ethereum.NewEthWatcher", filepath.Join(r.Repo, "node/pkg/ethereum/watcher.go"), "NewEthWatcher", "contract")
+	chains, err2 := wiring.ArgFor(nodeGo, "ethereum.NewEthWatcher", filepath.Join(r.Repo, "node/pkg/ethereum/watcher.go"), "NewEthWatcher", "chainID")
+	if err != nil || err2 != nil {
+		ev.Broken("node.go wiring of the EVM watchers: %v %v", err, err2)
+	}
+	field := map[string]string{"vaa.ChainIDEthereum": "Ethereum", "vaa.ChainIDBSC": "Bsc"}
+	for i := range contracts {
+		f, ok := field[chains[i]]
+		if !ok {
+			ev.Broken("node.go: EVM watcher for unknown chain %s", chains[i])
+		}
+		// contracts[i] := eth_common.HexToAddress(<cfg>.Contracts.Governance) with <cfg> := bridgeConfig.<f>
+		m := regexp.MustCompile(`(?m)^\s*` + regexp.QuoteMeta(contracts[i]) + ` := eth_common\.HexToAddress\((\w+)\.Contracts\.Governance\)`).FindStringSubmatch(text)
+		if m == nil {
+			ev.Broken("node.go: derivation of %s outside the recognised wiring", contracts[i])
+		}
+		m2 := regexp.MustCompile(`(?m)^\s*` + m[1] + ` := bridgeConfig\.(\w+)\s*$`).FindStringSubmatch(text)
+		if m2 == nil {
+			ev.Broken("node.go: origin of %s outside the recognised wiring", m[1])
+		}
+		r.Add("config_facts", 1)
+		if m2[1] != f {
+			r.Violation("production config: a chain's watcher is configured with another chain's (or network's) core contract", fmt.Sprintf("node.go: the watcher for %s gets %s = HexToAddress(bridgeConfig.%s.Contracts.Governance)", chains[i], contracts[i], m2[1]), map[string]string{"chain": chains[i], "from": m2[1]})
+		}
+	}
+}
+
 func menu() []step {
 	m := []step{{Op: "poll"}, {Op: "reobs", Tx: 1}, {Op: "head+", N: 1}, {Op: "head+", N: 61}, {Op: "drop", Tx: 1}, {Op: "status0", Tx: 1},
 		{Op: "remine", Tx: 1, Block: 103, Fork: 2, Logs: []ethh.LogSpec{{Address: ethh.Core, Topic: "published", Seq: 5, CL: 1}}}, {Op: "restart"}, {Op: "release"}, {Op: "final+"}}
@@ -520,6 +600,7 @@ func main() {
 	si, sn, worker := ev.Shard()
 	if !worker {
 		r.Set("base_scenarios", len(bs))
+		productionConfig()
 		r.Fork(0, nil, r.CrashViolation)
 		r.Set("rule", "states = executions of the real watcher, transitions = stimuli; histories are not merged (poller and subscription state are goroutine-local); every history within the edit bound around every base scenario is run in full, followed by the fair closing schedule (head + level+1 and a poll, then three times head +1 and a poll)")
 		r.Assume("the simulated node applies the subscription filter as a real node does (only logs matching address and topic are pushed); receipts carry all logs of the transaction")
